@@ -19,7 +19,7 @@ from props_base import prop
 
 WIRE_DEPS = ["Wire.tla"]
 AUTH_DEPS = ["Auth.tla"]
-KEEP_PER_CLASS = 12        # replay files / VIOLATION candidates kept per mismatch class (all are counted in the evidence)
+KEEP_PER_CLASS = 8        # replay files / VIOLATION candidates kept per mismatch class (all are counted in the evidence)
 ASSUME = ["TLC evaluates the specification correctly",
           "harness concretisation (abstract action -> bytes / API call) and projection (answer -> outcome class, message "
           "record, buffer contents) are faithful"]
@@ -58,10 +58,39 @@ def _thin(verdict, key):
         classes[k] += 1
         if classes[k] <= KEEP_PER_CLASS:
             kept.append(b)
-    total = len(verdict["bad"])
+    # the trace specs keep a bounded number of mismatch records per kind and shard but count every mismatch
+    by_kind = {k[4:]: v for k, v in sorted(verdict["cnt"].items()) if k.startswith("bad:")}
     verdict = dict(verdict)
     verdict["bad"] = kept
-    return verdict, {"mismatches_total": total, "mismatch_classes": {" ".join(map(str, k)): n for k, n in sorted(classes.items())}}
+    return verdict, {"mismatches_total": sum(by_kind.values()), "mismatches_by_kind": by_kind,
+                     "mismatch_records_kept_by_class": {" ".join(map(str, k)): n for k, n in sorted(classes.items())}}
+
+
+def _run_wide(prop_id, scen, harness_bin, args, trace_module):
+    """RUN + VAL like engine_check.run_parts, but with many small chunks: an Argon2 verification costs ~20 ms, so the
+    scenario list is spread over all cores however short it is."""
+    import concurrent.futures
+    import shutil
+    vc.build_harness([harness_bin])
+    wd = os.path.join(vc.RUN, "work_%s" % prop_id)
+    shutil.rmtree(wd, ignore_errors=True)
+    os.makedirs(wd)
+    k = max(1, min(vc.NCPU - 2, len(scen) // 20))
+    size = (len(scen) + k - 1) // k
+    jobs = []
+    for j in range(k):
+        sp, ep = os.path.join(wd, "scen_%d.ndjson" % j), os.path.join(wd, "ev_%d.ndjson" % j)
+        vc.write_ndjson(sp, scen[j * size:(j + 1) * size])
+        jobs.append((sp, ep))
+    with concurrent.futures.ThreadPoolExecutor(max_workers=len(jobs)) as ex:
+        list(ex.map(lambda job: vc.run_harness(harness_bin, job[0], job[1], ["--cfg", "default"] + args), jobs))
+    events = os.path.join(wd, "events.ndjson")
+    with open(events, "w") as out:
+        for _, ep in jobs:
+            with open(ep) as fh:
+                shutil.copyfileobj(fh, out)
+            os.remove(ep)
+    return vc.validate(trace_module, trace_module + ".cfg", events, os.path.join(wd, "val")), events
 
 
 def _spec_cov(verdict, prefixes):
@@ -204,9 +233,8 @@ def check_c29(prop_id, tier, seed):
     seen = {}
     scen = [{"id": s["id"], "steps": _concretise(s["steps"], seen)} for s in scen]
     tmp = os.path.join(vc.RUN, "tmp_auth")
-    parts = [{"name": "auth", "scenarios": scen, "configs": [{"name": "default", "args": ["--tmp", tmp]}]}]
-    verdict, events, _ = ec.run_parts(prop_id, parts, os.path.join(vc.RUN, "work_%s" % prop_id),
-                                      trace_module="TraceAuth", trace_cfg="TraceAuth.cfg", harness_bin="vq_auth")
+    cfgs = [{"name": "default", "args": ["--tmp", tmp]}]
+    verdict, events = _run_wide(prop_id, scen, "vq_auth", cfgs[0]["args"], "TraceAuth")
     cov = _measure(events, lambda v: any(a in ("add", "load") and o == "ok" for a, o in v) and any(a in ("clear", "md5") for a, o in v))
     cov["bounds"] = C29_BOUNDS[tier]
     cov["verify_calls_by_request_class_and_reference_verdict"] = _spec_cov(verdict, ("clear", "md5", "build"))
@@ -215,7 +243,7 @@ def check_c29(prop_id, tier, seed):
     return ec.finish(prop_id, tier, seed, t0, verdict, events, stats, harness_bin="vq_auth", trace_module="TraceAuth",
                      assumptions=ASSUME + ["MD5 and Argon2 are treated as injective on the inputs used (checked for the MD5 digests "
                                            "of the scenario set); concrete MD5 responses are computed with Python's hashlib"],
-                     configs=parts[0]["configs"],
+                     configs=cfgs,
                      rule="each scenario is the shortest add/load history TLC found for one distinct reachable (store, superseded "
                           "passwords) state followed by the full probe set of cleartext and MD5 verifications, replayed on the real "
                           "PasswordStore; distinct = distinct rendered call history; non-trivial = the store was built by at least "
